@@ -144,18 +144,37 @@ pub fn reference(case: &Case, keep_unsettled: bool) -> (LCfg, Vec<usize>) {
 }
 
 fn builder(case: &Case, sink: &Sink) -> (log4rs::config::runtime::ConfigBuilder, Root) {
-    let mut b = Config::builder();
+    use log4rs::config::runtime::{ConfigBuilder, LoggerBuilder};
+    // every public route to the same builders, and every mix of singular and bulk calls (a pure function of the case)
+    let style = fnv64(format!("{:?}|{:?}|{}", case.appenders, case.root_refs, case.loggers.len()).as_bytes());
+    let mut b = if style & (1 << 60) == 0 { Config::builder() } else { ConfigBuilder::default() };
     let mut occ: BTreeMap<String, usize> = BTreeMap::new();
+    let mut apps = vec![];
     for a in &case.appenders {
         let k = occ.entry(a.clone()).or_insert(0);
-        b = b.appender(Appender::builder().build(a.clone(), Box::new(Cap { name: format!("{}#{}", a, k), sink: sink.clone(), fail: false })));
+        apps.push(Appender::builder().build(a.clone(), Box::new(Cap { name: format!("{}#{}", a, k), sink: sink.clone(), fail: false })));
         *k += 1;
     }
-    for l in &case.loggers {
-        b = b.logger(CLogger::builder().appenders(l.refs.iter().cloned()).additive(l.additive).build(l.name.clone(), LEVEL_FILTERS[l.level as usize % 6]));
+    for (mut run, single) in runs_by_style(apps, style) {
+        b = if single { b.appender(run.pop().unwrap()) } else { b.appenders(run) };
     }
-    let root = Root::builder().appenders(case.root_refs.iter().cloned()).build(LEVEL_FILTERS[case.root_level as usize % 6]);
-    (b, root)
+    let mut loggers = vec![];
+    for (li, l) in case.loggers.iter().enumerate() {
+        let ls = style.rotate_left(li as u32 * 5 + 3);
+        let mut lb = if ls & (1 << 61) == 0 { CLogger::builder() } else { LoggerBuilder::default() };
+        for (run, single) in runs_by_style(l.refs.clone(), ls) {
+            lb = if single { lb.appender(run[0].clone()) } else { lb.appenders(run) };
+        }
+        loggers.push(lb.additive(l.additive).build(l.name.clone(), LEVEL_FILTERS[l.level as usize % 6]));
+    }
+    for (mut run, single) in runs_by_style(loggers, style.rotate_left(17)) {
+        b = if single { b.logger(run.pop().unwrap()) } else { b.loggers(run) };
+    }
+    let mut rb = Root::builder();
+    for (run, single) in runs_by_style(case.root_refs.clone(), style.rotate_left(29)) {
+        rb = if single { rb.appender(run[0].clone()) } else { rb.appenders(run) };
+    }
+    (b, rb.build(LEVEL_FILTERS[case.root_level as usize % 6]))
 }
 
 fn observed(config: &Config) -> LCfg {
@@ -372,6 +391,21 @@ fn sweep(run: &Run) {
 pub fn run(run: &Run) {
     run.run_replays::<Case>("builder", &check);
     sweep(run);
+    if run.worker.0 == 0 {
+        // hundreds of offending items in one input: every one of them has to be named
+        let many_refs: Vec<String> = (0..400).map(|i| format!("ghost{}", i)).collect();
+        let mut appenders: Vec<String> = vec!["A0".into(), "A1".into()];
+        appenders.extend((0..300).map(|i| if i % 2 == 0 { "A0".to_string() } else { format!("B{}", i) }));
+        let mut loggers = vec![RawLogger { name: "a".into(), level: 3, additive: true, refs: many_refs.clone() }];
+        loggers.extend((0..300).map(|i| RawLogger { name: format!("bad{}:", i), level: 2, additive: true, refs: vec!["A1".into()] }));
+        loggers.extend((0..280).map(|_| RawLogger { name: "a".into(), level: 1, additive: false, refs: vec![] }));
+        for c in [
+            Case { appenders: vec!["A0".into()], root_level: 3, root_refs: many_refs.clone(), loggers: vec![], targets: vec!["a".into()] },
+            Case { appenders, root_level: 3, root_refs: vec!["A0".into(), "nope".into()], loggers, targets: vec!["a::x".into(), "zz".into()] },
+        ] {
+            run.eval_one("builder", &c, &check);
+        }
+    }
     run.search("builder", run.tier.pick(5_000, 300_000), strategy(), &check);
 }
 
@@ -385,7 +419,7 @@ pub fn replay(part: &str, case: serde_json::Value) -> Option<CaseResult> {
 pub fn meta() -> EvidenceMeta {
     EvidenceMeta {
         level: "exploration",
-        rule: "cases = builder inputs: multiset of appender names over a 4-name pool (duplicates likely, each occurrence a distinguishable capture appender), 0-6 loggers whose names come from strings over {a,b,:}, concatenations of components and colon runs, well-formed paths, and duplicates of earlier names with different content; references drawn from pool + 2 nonexistent names with repeats; plus the exhaustive sweep of all 3280 names over {a,b,:} up to length 7. Oracle: name validity written from the statement (non-empty, every colon run of length exactly 2, none trailing; runs of even length >= 4 are unsettled: either outcome accepted); build() Ok iff no offence; every reported error names a real offence of its kind (counted) and every offending item is covered; build_lossy's Config accessors equal the valid part (first occurrence wins, dangling references stripped, original order); every returned Config is installed and probed under catch_unwind and deliveries equal route() on the valid part, from first-occurrence appenders only. Appender names include the empty string and a blank. non-trivial = >=2 offence kinds, or an invalid name of length >=3 containing '::', or a duplicate whose second occurrence differs".into(),
+        rule: "cases = builder inputs: multiset of appender names over a 4-name pool (duplicates likely, each occurrence a distinguishable capture appender), 0-6 loggers whose names come from strings over {a,b,:}, concatenations of components and colon runs, well-formed paths, and duplicates of earlier names with different content; references drawn from pool + 2 nonexistent names with repeats; plus the exhaustive sweep of all 3280 names over {a,b,:} up to length 7. Oracle: name validity written from the statement (non-empty, every colon run of length exactly 2, none trailing; runs of even length >= 4 are unsettled: either outcome accepted); build() Ok iff no offence; every reported error names a real offence of its kind (counted) and every offending item is covered; build_lossy's Config accessors equal the valid part (first occurrence wins, dangling references stripped, original order); every returned Config is installed and probed under catch_unwind and deliveries equal route() on the valid part, from first-occurrence appenders only. Appender names include the empty string and a blank; the builders are reached through Config::builder() / ConfigBuilder::default(), Logger::builder() / LoggerBuilder::default() and mixes of singular and bulk calls; two fixed inputs carry 400 / 1000+ offending items. non-trivial = >=2 offence kinds, or an invalid name of length >=3 containing '::', or a duplicate whose second occurrence differs".into(),
         assumptions: vec!["a colon run of even length >= 4 ('a::::b') is not settled by the statement; both outcomes are accepted and counted".into()],
         mutants_caught: vec![],
     }
